@@ -1489,7 +1489,7 @@ pub fn gen_any(prop: &str, seed: u64) -> Value {
             }
             // restart: in a quarter of the runs on stacks with adapters, the adapters are
             // constructed anew over the same layers once or twice (only durable state survives)
-            if matches!(prop, "C01" | "C03" | "C04" | "C05" | "C08" | "C09" | "C10" | "C12") && (cfg.specs[0].has_ovl() || matches!(cfg.specs[0], Spec::Alt { .. })) {
+            if matches!(prop, "C01" | "C03" | "C04" | "C05" | "C08" | "C09" | "C10" | "C12" | "C15") && (cfg.specs[0].has_ovl() || matches!(cfg.specs[0], Spec::Alt { .. })) {
                 let mut r = Rng::new(crate::rng::mix(seed, 0x2E0F));
                 if r.pct(25) && !cfg.ops.is_empty() {
                     for _ in 0..(1 + r.below(2)) {
